@@ -216,6 +216,7 @@ def run(pid, tier, seed, fact_files, repo, t0, explain=None):
             "not_decided": spec.get("not_decided", []),
             "known_findings_matched": n_known,
             "external_callees_not_in_any_table": audit_external(prog),
+            "normalisation_inlined_outparam_helpers": list(getattr(prog.facts, "inlined_helpers", [])),
             "selftest": rep.stats.get("selftest"),
         },
         "assumptions": TRUSTED + spec.get("assumptions", []),
